@@ -349,6 +349,22 @@ let on_proc (idx : int) (msg : message) (obs : string) : unit =
                  | _ -> ())
             | None -> ())
        | None -> ());
+      (* C11: a heartbeat that is not above the stored one is a no-op on the stored heartbeat (copies
+         a delta of the same message may reset are left out) *)
+      (match msg, before with
+       | (Syn (_, dg) | SynAck (dg, _)), Some b ->
+           let touched = match delta_of_message msg with Some x -> List.map (fun nd -> nd.d_id) x.nds | None -> [] in
+           List.iter
+             (fun (i, g) ->
+               if not (id_eqb i info.self) && not (in_idl_m i touched) then
+                 match nm_get i b.nodes, nm_get i o.snap.nodes with
+                 | Some cb, Some ca ->
+                     if not (nless cb.c_hb g.g_hb) then
+                       check "C11" (neq ca.c_hb cb.c_hb)
+                         ("a heartbeat of " ^ token_of_id i ^ " not above the stored one changed the stored heartbeat")
+                 | _ -> ())
+             dg
+       | _ -> ());
       (* fresh heartbeat evidence: a digest entry strictly above the stored non-zero heartbeat
          (the stored value is read from the dump taken before the message; a copy that a reset
          emptied has heartbeat 0 again, so its next observation is a first one, not a fresh one) *)
